@@ -344,6 +344,21 @@ def pairwise_pass(ck, rule):
     def mates(callee):
         return callee in with_loop and callee is not entry and \
             not any(isinstance(x, (ast.Yield, ast.YieldFrom)) for x in ast.walk(callee.node))
+    # the pass visits every consecutive pair: no way out of the loop that depends on what a segment looks like
+    for lp in [x for x in ast.walk(fn.node) if isinstance(x, (ast.For, ast.While))]:
+        for br in [x for x in ast.walk(lp) if isinstance(x, (ast.Break, ast.Return))]:
+            guard = None
+            for i0 in [x for x in ast.walk(lp) if isinstance(x, ast.If)]:
+                if any(y is br for y in ast.walk(i0)):
+                    guard = i0
+            about_segments = guard is not None and any(isinstance(y, (ast.Subscript, ast.Attribute)) for y in ast.walk(guard.test))
+            if about_segments:
+                ck.violation(rule, short(fn) + ":early-exit", where(fn, br),
+                             "the pairwise pass is left as soon as a segment looks a certain way: the pairs behind it are never "
+                             "resolved (a chain member emptied by the conflict with its predecessor is not the end of the chain)",
+                             found=ast.unparse(guard.test)[:120] + " -> " + ast.unparse(br), required="every (i, i+1) of the chain is resolved")
+            elif guard is not None or isinstance(br, ast.Break):
+                raise AnalysisError(f"{where(fn, br)}: the pairwise pass has an early exit that is not understood: {ast.unparse(br)}")
     paths = explore(ck, entry, unroll=(1,), follow=mates)
     entry_param = V(entry.call_params()[0].name)
     if fn is not entry and not any(e.kind == "setitem" for pa in paths for e in pa.events):
@@ -502,6 +517,11 @@ def _pair_generator(ck, gen_fn, n):
             if T.is_num_const(da) and T.is_num_const(db):
                 return (min(da[1], db[1]) == 0), T.show(v)
             return None, T.show(v)
+        # zip(r[::2], r[1::2]) (any stride above 1): the disjoint pairs (0,1), (2,3), ... - never (1,2)
+        def stride(x):
+            return x[4][1] if x[0] == "slice" and x[4][0] == "c" and isinstance(x[4][1], int) else None
+        if a[0] == "slice" and b[0] == "slice" and a[1] == b[1] and (stride(a) or 1) > 1 and stride(a) == stride(b):
+            return False, f"{T.show(v)[:120]} yields the disjoint pairs (0,1), (2,3), ...: every second neighbour pair of the chain is never resolved"
         # idiom C: zip(r, r[1:])
         if b == ("slice", a, C(1), T.NONE, T.NONE):
             return (a in (rng, T.mk_call("list", [rng]))), T.show(v)
@@ -570,6 +590,23 @@ def dedupe(ck, rule):
         levels.append(spec)
         cur = spec["input"]
     if not levels:
+        # positively recognised: "keep every pair whose distance equals the smallest distance of its key" - a filter, not a selection
+        for g in [x for x in T.subterms(v) if x[0] == "app" and x[1] in p.functions]:
+            gfn = p.functions[g[1]]
+            for gpa in explore(ck, gfn, unroll=(0, 1)):
+                gv = gpa.value if gpa.outcome == "return" else None
+                while gv is not None and gv[0] == "call" and gv[1] in ("list", "iter", "tuple") and len(gv[2]) == 1:
+                    gv = gv[2][0]
+                if gv is None or gv[0] != "comp" or len(gv[3]) != 1:
+                    continue
+                for cond in gv[3][0][1]:
+                    if cond[0] == "eq" and any(x[0] == "attr" and x[2] == "distance" and x[1][0] == "bv" for x in T.subterms(cond)) \
+                            and gv[2][0] == "bv":
+                        ck.violation(rule, short(gfn) + ":ties", where(gfn, gpa.node),
+                                     "one-per-key selection is written as a filter `distance == smallest distance of the key`: every "
+                                     "pair that ties for the smallest distance is kept, so a label that lies exactly half way between "
+                                     "two partners stays in two pairs", found=T.show(gv)[:200], required="min(group, key=distance): exactly one pair per key")
+                        return
         raise AnalysisError(f"{w}: one-per-key selection (min over groupby over sorted) not recognised: {T.show(v)[:200]}")
     keys = [lv["key"] for lv in levels]
     ck.judge(cur == param and len(keys) == 2 and set(keys) == {("query", "siteId"), ("reference", "siteId")},
